@@ -268,24 +268,44 @@ class SignatureInfo:
     # resulting `Partial`.
     parameters = list(self.parameters.values())
     positional_values = []
+    # Unset positional parameters seen so far that are not in the output.
+    skipped = []
+
+    def append_positional(value):
+      # A value can only be passed by position if every positional parameter
+      # before it is passed as well: fill the skipped ones with their defaults.
+      for skipped_param in skipped:
+        if skipped_param.default is skipped_param.empty:
+          raise TypeError(
+              f'Missing value for positional parameter {skipped_param.name!r}:'
+              ' it has no default, but a later positional argument is set.'
+          )
+        positional_values.append(skipped_param.default)
+      skipped.clear()
+      positional_values.append(value)
+
     for index, param in enumerate(parameters):
       if param.kind == param.POSITIONAL_ONLY:
         if index in arguments:
-          positional_values.append(arguments[index])
+          append_positional(arguments[index])
           del arguments[index]
         elif include_no_value:
-          positional_values.append(self.get_default(index, NO_VALUE))
+          append_positional(self.get_default(index, NO_VALUE))
+        else:
+          skipped.append(param)
       if param.kind == param.POSITIONAL_OR_KEYWORD:
         if include_pos_or_kw_in_args or self.var_positional_start in arguments:
           if param.name in arguments:
-            positional_values.append(arguments[param.name])
+            append_positional(arguments[param.name])
             del arguments[param.name]
           elif include_no_value:
-            positional_values.append(self.get_default(index, NO_VALUE))
+            append_positional(self.get_default(index, NO_VALUE))
+          else:
+            skipped.append(param)
     if self.var_positional_start is not None:
       index = self.var_positional_start
       while index in arguments:
-        positional_values.append(arguments[index])
+        append_positional(arguments[index])
         del arguments[index]
         index += 1
     return positional_values, arguments
